@@ -3148,11 +3148,15 @@ class QuicConnection:
                         discarded.add(stream)
                         continue
 
-                    if stream.receiver.stop_pending:
+                    if stream.receiver.stop_pending and not stream.is_blocked:
                         # STOP_SENDING
                         self._write_stop_sending_frame(builder=builder, stream=stream)
 
-                    if stream.sender.reset_pending:
+                    if stream.is_blocked:
+                        # The peer's stream limit does not allow this stream yet,
+                        # no frame may refer to it.
+                        pass
+                    elif stream.sender.reset_pending:
                         # RESET_STREAM
                         self._write_reset_stream_frame(builder=builder, stream=stream)
                     elif not stream.is_blocked and not stream.sender.buffer_is_empty:
